@@ -1,12 +1,132 @@
-/- Driver ops for the Format model. Stub until the model lands. -/
+/- Driver ops for the faithful formatting model (`PypyrModel/Format*.lean`, C08). -/
 import Lean.Data.Json
 import PypyrModel.Json
+import PypyrModel.Fmt
+import PypyrModel.FmtParse
+import PypyrModel.Format
+import PypyrModel.FormatSpec
 
 namespace Pypyr.OpFormat
 open Lean (Json)
+open Pypyr.Format
 
-/-- Handle one request object (already parsed); `Except.error` = protocol-level reject. -/
-def handle (_op : String) (_j : Json) : Except String Json :=
-  .error "not implemented"
+def fuelOf (j : Json) : Nat :=
+  match j.getObjVal? "fuel" with
+  | .ok f => (jsonNat? f).toOption.getD 64
+  | .error _ => 64
+
+def excToResult {α} (f : α → Json) (r : Except Exc α) : Except String Json :=
+  match r with
+  | .error e => if e.name == "OutOfDomain" then .error ("out of domain: " ++ e.msg)
+                else .ok (Json.mkObj [("err", e.toJson)])
+  | .ok a => .ok (Json.mkObj [("ok", f a)])
+
+def cs (l : List Char) : Json := Json.str (String.ofList l)
+
+def optErr : Option Exc → Json
+  | none => Json.null
+  | some e => e.toJson
+
+def tupJson (t : Tup) : Json :=
+  match t.field with
+  | none => Json.arr #[cs t.lit, Json.null, Json.null, Json.null]
+  | some f => Json.arr #[cs t.lit, cs f.name, cs f.spec,
+      match f.conv with | none => Json.null | some c => Json.str (String.singleton c)]
+
+def keyJson : Key → Json
+  | .int n => Json.num (Lean.JsonNumber.fromNat n)
+  | .str s => cs s
+
+def accJson : Accessor → Json
+  | .attr n => Json.arr #[Json.bool true, cs n]
+  | .item k => Json.arr #[Json.bool false, keyJson k]
+
+def pieceJson : Format.Piece → Json
+  | .lit s => Json.mkObj [("lit", Json.str s)]
+  | .field n c s => Json.mkObj [("name", Json.str n), ("spec", Json.str s),
+      ("conv", match c with | none => Json.null | some c => Json.str (String.singleton c))]
+
+/-- the documented result (`Spec.format`) of formatting the string `s` at top level -/
+def specFormat (fuel : Nat) (ctx : Ctx) (isRec : Bool) (s : String) : Except Exc Val :=
+  match parseTuples s.toList with
+  | (_, some e) => .error e
+  | (ts, none) => Spec.format (fun r v => Format.fmtIter fuel ctx r v) ctx isRec (parts ts)
+
+/-- ops:
+    `fmt` {ctx, v, fuel?}     → `Format.fmtVal`
+    `asbool` {ctx, v}         → `Format.fmtAsBool`
+    `parse` {s}               → tuples of `formatter_parser` + the error raised after them
+    `pieces` {s}              → `parseFmt`
+    `split` {s}               → `formatter_field_name_split`
+    `getfield` {ctx, name}    → `get_field`
+    `field` {v, spec}         → `format(v, spec)`
+    `convert` {v, conv}       → `convert_field`
+    `vformat` {ctx, s}        → base-class `Formatter.vformat(s, None, ctx)` (= `str.format_map` on the flat subset)
+    `spec` {ctx, s, fuel?}    → `Spec.format` of a top-level string (the documented result)
+    `both` {ctx, v, fuel?}    → basic model (`Pypyr.fmtVal`) and faithful model side by side
+    `attrs` {names}           → which attribute names are in the modelled domain -/
+def handle (op : String) (j : Json) : Except String Json := do
+  match op with
+  | "fmt" =>
+    let ctx ← Ctx.ofJson (← j.getObjVal? "ctx")
+    let v ← Val.ofJson (← j.getObjVal? "v")
+    excToResult Val.toJson (Format.fmtVal (fuelOf j) ctx v)
+  | "asbool" =>
+    let ctx ← Ctx.ofJson (← j.getObjVal? "ctx")
+    let v ← Val.ofJson (← j.getObjVal? "v")
+    excToResult Json.bool (Format.fmtAsBool (fuelOf j) ctx v)
+  | "parse" =>
+    let s ← (← j.getObjVal? "s").getStr?
+    let (ts, err) := parseTuples s.toList
+    pure (Json.mkObj [("tuples", Json.arr (ts.map tupJson).toArray), ("err", optErr err)])
+  | "pieces" =>
+    let s ← (← j.getObjVal? "s").getStr?
+    pure (resultToJson (fun ps => Json.arr (ps.map pieceJson).toArray) (parseFmt s))
+  | "split" =>
+    let s ← (← j.getObjVal? "s").getStr?
+    match splitField s.toList with
+    | .error e => pure (Json.mkObj [("early", e.toJson)])
+    | .ok (first, accs, err) =>
+      pure (Json.mkObj [("first", keyJson first), ("rest", Json.arr (accs.map accJson).toArray), ("err", optErr err)])
+  | "getfield" =>
+    let ctx ← Ctx.ofJson (← j.getObjVal? "ctx")
+    let s ← (← j.getObjVal? "name").getStr?
+    excToResult Val.toJson (getField ctx s.toList)
+  | "field" =>
+    let v ← Val.ofJson (← j.getObjVal? "v")
+    let s ← (← j.getObjVal? "spec").getStr?
+    excToResult cs (formatField v s.toList)
+  | "convert" =>
+    let v ← Val.ofJson (← j.getObjVal? "v")
+    let c ← (← j.getObjVal? "conv").getStr?
+    match c.toList with
+    | [ch] => excToResult Val.toJson (convertField v (some ch))
+    | _ => .error "conv must be one character"
+  | "vformat" =>
+    let ctx ← Ctx.ofJson (← j.getObjVal? "ctx")
+    let s ← (← j.getObjVal? "s").getStr?
+    excToResult cs ((vfmt 3 ctx s.toList (some 0)).map (·.1))
+  | "spec" =>
+    let ctx ← Ctx.ofJson (← j.getObjVal? "ctx")
+    let s ← (← j.getObjVal? "s").getStr?
+    match fuelOf j with
+    | 0 => .error "fuel must be at least 2"
+    | 1 => .error "fuel must be at least 2"
+    | fuel + 2 => excToResult Val.toJson (specFormat fuel ctx false s)
+  | "both" =>
+    let ctx ← Ctx.ofJson (← j.getObjVal? "ctx")
+    let v ← Val.ofJson (← j.getObjVal? "v")
+    match Pypyr.fmtVal (fuelOf j) ctx v with
+    | .error ⟨"OutOfDomain", m⟩ => .error ("outside the basic grammar: " ++ m)
+    | b =>
+      let f ← excToResult Val.toJson (Format.fmtVal (fuelOf j) ctx v)
+      pure (Json.mkObj [("basic", resultToJson Val.toJson b), ("faithful", f)])
+  | "attrs" =>
+    let names ← (← j.getObjVal? "names").getArr?
+    let flags ← names.toList.mapM fun n => do
+      let s ← n.getStr?
+      pure (Json.bool (attrInDomain s.toList))
+    pure (Json.arr flags.toArray)
+  | _ => .error s!"unknown op {op}"
 
 end Pypyr.OpFormat
